@@ -278,6 +278,9 @@ func orHonest(s string) string {
 // modelEligible: every step lies inside the model's fault regimes
 func modelEligible(h *c12History) bool {
 	for _, s := range h.Steps {
+		if len(s.Data) > hugeLimit {
+			return false
+		}
 		if s.Fsize != 0 {
 			return false
 		}
@@ -611,7 +614,11 @@ func (rn *c12Runner) runRepeat(rc *repeatCase) {
 			last += " (" + trunc(resp.Hist[len(resp.Hist)-1].Err) + ")"
 		}
 	}
-	if !strings.HasPrefix(resp.Lookups[0].GetBytes, want) || !strings.HasPrefix(resp.Lookups[0].GetFile, "F ") {
+	if strings.HasPrefix(resp.Lookups[0].GetBytes, "F ") && !strings.HasPrefix(resp.Lookups[0].GetBytes, want) {
+		violate(res, common.Violation{Kind: "impl-violation", Oracle: "stored-then-other-bytes", Input: in,
+			Detail: fmt.Sprintf("an intact entry (id3) was stored and read back (the caller then reused the slice it was given); then %s was called %d times on the same Cache value; now GetBytes(id3) = %s, which is not what was stored", call, rc.N, trunc(resp.Lookups[0].GetBytes)),
+			Key:    rn.keyPrefix() + ":repeat:other-bytes:" + rc.String()})
+	} else if !strings.HasPrefix(resp.Lookups[0].GetBytes, want) || !strings.HasPrefix(resp.Lookups[0].GetFile, "F ") {
 		violate(res, common.Violation{Kind: "impl-violation", Oracle: "descriptor-exhaustion", Input: in,
 			Detail: fmt.Sprintf("an intact entry (id3) was stored and read back; then %s was called %d times on the same Cache value (collector off, RLIMIT_NOFILE %d above the descriptors in use; first call: %s, last call: %s; descriptors open: %d before, %d after); now GetBytes(id3) = %s and GetFile(id3) = %s: calls that all returned have made an unrelated, intact entry unreadable",
 				call, rc.N, rc.Nofile, first, last, resp.NfdB, resp.NfdA, trunc(resp.Lookups[0].GetBytes), resp.Lookups[0].GetFile),
@@ -694,6 +701,16 @@ func c12Histories(tier string, seed uint64, shimmed bool) []c12History {
 			for _, fs := range faulty {
 				out = append(out, c12History{Name: fmt.Sprintf("shared-output/%s/size%d", apiName(api), len(d)), Pre: sharedPre(d, 3, 1700000000000000021), Undamaged: true,
 					Steps: []hStep{fs, {ID: 1, Data: histY}}})
+			}
+		}
+	}
+	// B'. the same with an output past 1 MiB (source behaviours only; direct oracles only)
+	for _, d := range hugeContents("quick") {
+		for _, api := range []string{"", "putnoverify"} {
+			for _, k := range readerKinds {
+				r := k.r(len(d))
+				out = append(out, c12History{Name: fmt.Sprintf("shared-output/%s/size%d", apiName(api), len(d)), Pre: sharedPre(d, 3, 1700000000000000025), Undamaged: true,
+					Steps: []hStep{{API: api, ID: 0, Data: d, Reader: k.spec, R: r}, {ID: 1, Data: histY}}})
 			}
 		}
 	}
